@@ -30,6 +30,7 @@ func isComplexity(q string) bool { return strings.Contains(q, "_count as _count"
 type tagsCase struct {
 	Endpoint int        `json:"endpoint"`
 	Values   []evid.Str `json:"values"`
+	Bulk     Bulk       `json:"bulk"`
 }
 
 var tagEndpoints = []string{
@@ -46,7 +47,7 @@ var tagEndpoints = []string{
 }
 
 func genTags(rt *rapid.T) tagsCase {
-	return tagsCase{Endpoint: rapid.IntRange(0, len(tagEndpoints)-1).Draw(rt, "endpoint"), Values: genDistinct(rt, 8, true)}
+	return tagsCase{Endpoint: rapid.IntRange(0, len(tagEndpoints)-1).Draw(rt, "endpoint"), Values: genDistinct(rt, 8, true), Bulk: GenBulk(rt)}
 }
 
 func predTags(c tagsCase, o *evid.Obs) error {
@@ -55,6 +56,11 @@ func predTags(c tagsCase, o *evid.Obs) error {
 		return nil
 	}
 	target := tagEndpoints[c.Endpoint]
+	if c.Bulk.N < 0 || c.Bulk.N > 50000 || c.Bulk.Len < 0 || c.Bulk.Len > 100000 {
+		o.Discard("bad-bulk")
+		return nil
+	}
+	c.Values = append(append([]evid.Str(nil), c.Values...), c.Bulk.Strs()...)
 	rows := make([][]any, len(c.Values))
 	for i, v := range c.Values {
 		rows[i] = []any{string(v)}
@@ -65,7 +71,7 @@ func predTags(c tagsCase, o *evid.Obs) error {
 		}
 		return fakesql.Rows([]string{"v"}, rows...)
 	})
-	o.Tag(fmt.Sprintf("endpoint:%d", c.Endpoint), "rows:"+bucket(len(c.Values)))
+	o.Tag(fmt.Sprintf("endpoint:%d", c.Endpoint), "rows:"+bucket(len(c.Values)), sizeClass(len(resp.Body)))
 	if anyEscape(c.Values) {
 		o.Tag("needs-escape")
 		o.NonTrivial()
